@@ -8,6 +8,7 @@
    `arity_fn` are GENERATED from src/eval.rs on every run (tools/gen_builtins.py). *)
 From Coq Require Import NArith List String Bool.
 From Garden Require Import Sandbox SandboxProps gen.Builtins.
+From Garden Require Machine Session SessionProps Discipline.
 Import ListNotations.
 Open Scope string_scope.
 
@@ -73,3 +74,21 @@ Example builtin_index_guard_nonvacuous :
                    r_block_arm := true; r_shared_arm := false |} = false.
 Proof. exact index_guard_nonvacuous_lemma. Qed.
 Print Assumptions builtin_index_guard_nonvacuous.
+
+(* ---- machine-level part: the evaluation loop itself never crashes ---------
+   (proved in Discipline.v on the evaluator model Machine.v, for well-formed
+   programs of the fragment without for / break / continue / return / closure
+   literals / match; the arithmetic part is ArithTables.no_panic_lemma, pinned in
+   Properties/C04.v as int_binop_no_panic) *)
+Theorem machine_step_never_crashes_partial : forall p,
+  Session.wf_prog p = true -> Session.globals_ok p = true -> Session.globals_noint p = true ->
+  forall s, SessionProps.stack_run (Machine.stack s) -> Machine.step p s <> Machine.Crashed.
+Proof. intros p W G N. apply Discipline.machine_no_crash_lemma. repeat split; assumption. Qed.
+Print Assumptions machine_step_never_crashes_partial.
+
+Theorem machine_run_never_crashes_partial : forall p exprs,
+  Session.wf_prog p = true -> Session.globals_ok p = true -> Session.globals_noint p = true ->
+  Session.wf_all_used exprs = true ->
+  forall n, Machine.run p n (Machine.init_state exprs None None) <> Machine.RCrashed.
+Proof. intros p exprs W G N WE. apply Discipline.run_no_crash_lemma; [repeat split; assumption|exact WE]. Qed.
+Print Assumptions machine_run_never_crashes_partial.
